@@ -15,4 +15,9 @@ mkdir -p "$VERIF_DIR/.work/bin" "$VERIF_DIR/.work/overlay"
     go build -tags verif -o "$VERIF_DIR/.work/bin/vcheck.new" ./cmd/vcheck
   fi
   mv "$VERIF_DIR/.work/bin/vcheck.new" "$VERIF_DIR/.work/bin/vcheck"
+  # the same program under the race detector (free-running race pass of C09-C11)
+  if [ "${VERIF_SKIP_RACE_BUILD:-0}" != 1 ]; then
+    go build -race -tags verif -overlay "$VERIF_DIR/.work/overlay/overlay.json" -o "$VERIF_DIR/.work/bin/vcheck-race.new" ./cmd/vcheck \
+      && mv "$VERIF_DIR/.work/bin/vcheck-race.new" "$VERIF_DIR/.work/bin/vcheck-race"
+  fi
 ) 9>"$VERIF_DIR/.work/build.lock"
